@@ -1,7 +1,7 @@
 """Shared machinery of bin/check (see DESIGN.md section 2.4)."""
 import sys, os, json, subprocess, time, hashlib, re, shutil, glob, concurrent.futures as cf
 
-V = '/verif'
+V = os.environ.get('VERIF_HOME', '/verif')
 REPO = os.environ.get('VERIF_REPO', '/repo')
 CACHE = V + '/.cache'
 BIN = CACHE + '/bin'
@@ -322,8 +322,11 @@ def run_check(prop, tier, seed, replay):
                             [log[-1][2]])
         print(f'VIOLATION property={prop} replay={path} no-failing-input-found')
         ev['violations'] = 1; finish(ev, t0, prop); return 1
-    if 'extract' in cfg.get('tools', []):
-        gen_facts(log)
+    if not gen_facts(log):
+        path = write_replay(prop, 'extract', {'property': prop, 'broken': 'facts translator (go/cmd/extract) on the current tree'},
+                            [log[-1][2]])
+        print(f'VIOLATION property={prop} replay={path} no-failing-input-found')
+        ev['violations'] = 1; finish(ev, t0, prop); return 1
 
     # 2. proof obligations
     ok_drv, _ = lake_build(['driver'], log)
